@@ -64,7 +64,11 @@ Print Assumptions ops_inv_reachable.
 Theorem ops_wf_unfold : forall (lower : lbl -> lbl) (w : world),
   (ops_wf lower w [] <-> True)
   /\ forall o r, ops_wf lower w (o :: r) <->
-       (match o with AddTaxon t => t < w_next w | _ => True end)
+       (match o with
+        | AddTaxon t => t < w_next w
+        | AddTaxa ts => forall t, In t ts -> t < w_next w
+        | _ => True
+        end)
        /\ ops_wf lower (fst (step lower w o)) r.
 Proof. exact ops_wf_unfold_l. Qed.
 Print Assumptions ops_wf_unfold.
@@ -868,3 +872,123 @@ Theorem gen_scoped_copy : forall (h : nat) (n : ns) (m : list (tid * tid)),
        /\ (forall t, ~ In t (taxa n) -> alookup t m' = alookup t m).
 Proof. exact gen_scoped_copy_l. Qed.
 Print Assumptions gen_scoped_copy.
+
+(* ================= 11. batch entry points: repeated objects inside ONE batch ================= *)
+(* TaxonNamespace.add_taxa(iterable) is the operation `AddTaxa ts` of `step` (so every theorem above that
+   quantifies over operations / histories - inv_step, ops_inv_reachable, bit_stable, the frame theorems of
+   section 10, gen_run_eq - covers it); the batch may contain the SAME Taxon object several times.  The other
+   bulk entry points are `NewTaxa ls` (new_taxa: repeated labels create one member each, 11e below),
+   `MConstruct (SItems l)` (TaxonNamespace([...]) with repeated objects / labels, section 10) and the
+   read-only HasLabels / GetTaxa / TaxaBitmask / XTaxaBitmaskLabels / XBipartition*. *)
+From DV Require Import Proofs.C10Batch.
+
+(* `batch_new mem ts`: the elements of the batch ts that are not in mem, each ONCE, in the order of
+   their first occurrence *)
+Theorem batch_new_unfold : forall (mem ts : list tid),
+  batch_new mem [] = []
+  /\ (forall t r, batch_new mem (t :: r) = if memb t mem then batch_new mem r else t :: batch_new (t :: mem) r)
+  /\ NoDup (batch_new mem ts)
+  /\ (forall t, In t (batch_new mem ts) <-> In t ts /\ ~ In t mem).
+Proof. exact batch_new_unfold_l. Qed.
+Print Assumptions batch_new_unfold.
+
+(* 11a. add_taxa on a mutable namespace, for EVERY batch (repeats of members, of non-members, any order):
+   returns None; appends exactly the distinct not-yet-member objects once each, in first-occurrence
+   order; the members stay pairwise distinct; the k-th new member gets index counter+k and nothing
+   else, the counter advances by the number of DISTINCT new objects - so every bit of
+   all_taxa_bitmask handed out by the batch is owned by exactly one new member (forward and reverse
+   map agree); old members keep their index; no Taxon object is created or relabelled *)
+Theorem add_taxa_batch_spec : forall (lower : lbl -> lbl) (w : world) (ts : list tid),
+  Inv (w_ns w) -> is_mut (w_ns w) = true ->
+  let w' := fst (step lower w (AddTaxa ts)) in
+  let new := batch_new (taxa (w_ns w)) ts in
+  snd (step lower w (AddTaxa ts)) = OUnit
+  /\ taxa (w_ns w') = taxa (w_ns w) ++ new
+  /\ NoDup (taxa (w_ns w'))
+  /\ (forall t, In t new <-> In t ts /\ ~ In t (taxa (w_ns w)))
+  /\ count (w_ns w') = count (w_ns w) + Z.of_nat (List.length new)
+  /\ (forall t i, alookup t (acc (w_ns w)) = Some i -> alookup t (acc (w_ns w')) = Some i)
+  /\ (forall k t, nth_error new k = Some t -> alookup t (acc (w_ns w')) = Some (count (w_ns w) + Z.of_nat k))
+  /\ (forall i, count (w_ns w) <= i < count (w_ns w') ->
+        exists t, In t new /\ alookup t (acc (w_ns w')) = Some i /\ alookup i (rev (w_ns w')) = Some t)
+  /\ w_lab w' = w_lab w /\ w_next w' = w_next w.
+Proof. exact add_taxa_step_spec_l. Qed.
+Print Assumptions add_taxa_batch_spec.
+
+(* 11b. add_taxa on an immutable namespace: silent no-op when every element is a member, TypeError
+   otherwise; in both cases the namespace is untouched *)
+Theorem add_taxa_immutable : forall (ts : list tid) (n : ns), Inv n -> is_mut n = false ->
+  ((forall t, In t ts -> In t (taxa n)) -> add_taxa n ts = Ok n)
+  /\ ((exists t, In t ts /\ ~ In t (taxa n)) -> add_taxa n ts = Err TypeErr).
+Proof. exact add_taxa_immutable_l. Qed.
+Print Assumptions add_taxa_immutable.
+
+(* 11c. the batch is the sequence of single additions (same resulting world, in every state, mutable
+   or not), and its result is None or the TypeError raised before anything was changed *)
+Theorem add_taxa_is_add_taxon_sequence : forall (lower : lbl -> lbl) (w : world) (ts : list tid),
+  fst (step lower w (AddTaxa ts)) = run_world lower w (map AddTaxon ts).
+Proof. exact add_taxa_is_add_taxon_sequence_l. Qed.
+Print Assumptions add_taxa_is_add_taxon_sequence.
+
+Theorem add_taxa_output : forall (lower : lbl -> lbl) (w : world) (ts : list tid),
+  snd (step lower w (AddTaxa ts)) = OUnit \/
+  (snd (step lower w (AddTaxa ts)) = OErr TypeErr /\ fst (step lower w (AddTaxa ts)) = w
+   /\ is_mut (w_ns w) = false /\ exists t, In t ts /\ alookup t (acc (w_ns w)) = None).
+Proof. exact add_taxa_output_l. Qed.
+Print Assumptions add_taxa_output.
+
+(* 11d. translator tie: the function generated from the CURRENT source of TaxonNamespace.add_taxa
+   (Gen/Namespace.v py_add_taxa: its loop over the iterable, calling the generated add_taxon) equals the
+   model's add_taxa on every list of Taxon objects, repeats included *)
+Theorem gen_add_taxa : forall (w : world) (ts : list tid),
+  py_add_taxa w (VList (map VTaxon ts)) = lift_ns_v w (add_taxa (w_ns w) ts).
+Proof. exact gen_add_taxa_l. Qed.
+Print Assumptions gen_add_taxa.
+
+(* non-vacuity: members a,b; batch [x; a; y; x] with x, y new and x repeated: x and y are added once,
+   bits 2 and 3, all_taxa_bitmask = 0b1111; and the immutable cases *)
+Theorem add_taxa_examples :
+  (Inv (w_ns bx_w) /\
+   let '(w', o) := step (fun l => l) bx_w (AddTaxa [2; 0; 3; 2]) in
+   o = OUnit /\ observe w' = [(0, 0); (1, 1); (2, 2); (3, 3)] /\ count (w_ns w') = 4
+   /\ all_taxa_bitmask (w_ns w') = 15 /\ batch_new (taxa (w_ns bx_w)) [2; 0; 3; 2] = [2; 3])
+  /\ (let w := mkW (mkNs [0; 1] [(1, 1); (0, 0)] [(1, 1); (0, 0)] 2 [] false false) (w_lab bx_w) 4 in
+      step (fun l => l) w (AddTaxa [0; 1; 0]) = (w, OUnit)
+      /\ step (fun l => l) w (AddTaxa [0; 2; 2]) = (w, OErr TypeErr)).
+Proof. split; [exact bx_repeated_object| exact bx_immutable]. Qed.
+Print Assumptions add_taxa_examples.
+
+(* 11e. new_taxa(labels) on a mutable namespace, for EVERY batch of labels (the same label any number of
+   times): returns the list of the NEW Taxon objects, one per element of the batch - fresh identities
+   w_next, w_next+1, ... (`zseq`), pairwise distinct also when their labels coincide -, appended in
+   order, the k-th with accession index counter+k and the k-th label; old members keep index and label *)
+Theorem zseq_unfold : forall (s : Z) (n : nat),
+  zseq s 0 = [] /\ zseq s (S n) = s :: zseq (s + 1) n
+  /\ List.length (zseq s n) = n /\ (forall x, In x (zseq s n) <-> s <= x < s + Z.of_nat n).
+Proof. exact zseq_unfold_l. Qed.
+Print Assumptions zseq_unfold.
+
+Theorem new_taxa_batch_spec : forall (lower : lbl -> lbl) (w : world) (ls : list lbl),
+  (Inv (w_ns w) /\ forall t, In t (taxa (w_ns w)) -> t < w_next w) -> is_mut (w_ns w) = true ->
+  let w' := fst (step lower w (NewTaxa ls)) in
+  let new := zseq (w_next w) (List.length ls) in
+  snd (step lower w (NewTaxa ls)) = OTaxa new
+  /\ taxa (w_ns w') = taxa (w_ns w) ++ new
+  /\ NoDup (taxa (w_ns w'))
+  /\ w_next w' = w_next w + Z.of_nat (List.length ls)
+  /\ count (w_ns w') = count (w_ns w) + Z.of_nat (List.length ls)
+  /\ (forall k l, nth_error ls k = Some l ->
+        alookup (w_next w + Z.of_nat k) (acc (w_ns w')) = Some (count (w_ns w) + Z.of_nat k)
+        /\ label_of w' (w_next w + Z.of_nat k) = l)
+  /\ (forall t i, alookup t (acc (w_ns w)) = Some i -> alookup t (acc (w_ns w')) = Some i)
+  /\ (forall t, t < w_next w -> label_of w' t = label_of w t).
+Proof. exact new_taxa_step_spec_l. Qed.
+Print Assumptions new_taxa_batch_spec.
+
+(* non-vacuity: the label 7 three times in one batch -> three distinct members with bits 2, 3, 5 *)
+Theorem new_taxa_example :
+  let '(w', o) := step (fun l => l) bx_w (NewTaxa [7; 7; 1; 7]) in
+  o = OTaxa [4; 5; 6; 7] /\ observe w' = [(0, 0); (1, 1); (4, 2); (5, 3); (6, 4); (7, 5)]
+  /\ map (label_of w') (taxa (w_ns w')) = [0; 1; 7; 7; 1; 7].
+Proof. exact bx_repeated_labels. Qed.
+Print Assumptions new_taxa_example.
